@@ -264,7 +264,7 @@ class Ctx:
         p = os.path.join(d, h + ".json")
         with open(p, "w") as f:
             json.dump(body, f, indent=1, sort_keys=True)
-        if len(self.violations) < 50:
+        if len(self.violations) < 50 and (key, what, p) not in self.violations:
             self.violations.append((key, what, p))
         return True
 
